@@ -268,6 +268,7 @@ func modelCfg(p protoSpec, o *obs, pos int) mcfg {
 type drawRow struct {
 	site   string // "<site>.<idx>"
 	scalar bool
+	retry  bool // rejection sampled: the specified count is a minimum
 	n      int
 }
 
@@ -294,7 +295,7 @@ func parseRows(s string) ([]drawRow, error) {
 			return nil, err
 		}
 		for i := 0; i < cnt; i++ {
-			out = append(out, drawRow{site: f[0], scalar: f[1] == "s", n: n})
+			out = append(out, drawRow{site: f[0], scalar: strings.HasPrefix(f[1], "s"), retry: strings.HasSuffix(f[1], "!"), n: n})
 		}
 	}
 	return out, nil
@@ -334,6 +335,54 @@ func rle(ns []int) string {
 		i = j
 	}
 	return strings.Join(parts, " ")
+}
+
+// readsMatch compares the observed read sizes with the specified draws; a block of rejection
+// sampled draws matches a block of at least as many reads of the same size.
+func readsMatch(rows []drawRow, obs []int) bool {
+	i := 0
+	for k := 0; k < len(rows); {
+		e := k
+		for e < len(rows) && rows[e].n == rows[k].n && rows[e].retry == rows[k].retry {
+			e++
+		}
+		cnt := e - k
+		got := 0
+		if rows[k].retry {
+			for i < len(obs) && obs[i] == rows[k].n {
+				i++
+				got++
+			}
+			if got < cnt {
+				return false
+			}
+		} else {
+			for got < cnt && i < len(obs) && obs[i] == rows[k].n {
+				i++
+				got++
+			}
+			if got != cnt {
+				return false
+			}
+		}
+		k = e
+	}
+	return i == len(obs)
+}
+
+// bytesMatch: the same for a source with short reads (only the byte total is comparable).
+func bytesMatch(rows []drawRow, total int) bool {
+	want, retry := 0, 0
+	for _, r := range rows {
+		want += r.n
+		if r.retry {
+			retry = r.n
+		}
+	}
+	if retry == 0 {
+		return total == want
+	}
+	return total >= want && (total-want)%retry == 0
 }
 
 func leModQ(b []byte, q *big.Int) *big.Int {
@@ -414,7 +463,7 @@ func (c *checker) tie(p protoSpec, seed int64, j sharing.ID, lab string, o *obs)
 				}
 				what := "C07 (ii) draw count = draws table (coq/model/Draws.v draws)"
 				if o.Chunk == 0 {
-					if rle(want) != rle(obsN) {
+					if !readsMatch(rows, obsN) {
 						c.mismatch("corr", fmt.Sprintf("%s-draw-count", keyp),
 							fmt.Sprintf("party %d round %d: the tape served reads of [%s] bytes, the draw specification (%s %s) says [%s]", uint64(id), r, rle(obsN), cfg.fam, cfg.args(), rle(want)),
 							kase, what, false)
@@ -422,7 +471,7 @@ func (c *checker) tie(p protoSpec, seed int64, j sharing.ID, lab string, o *obs)
 					}
 				} else {
 					// a source that serves at most Chunk bytes per Read: the same bytes must be drawn in total
-					if wantTotal != total {
+					if !bytesMatch(rows, total) {
 						c.mismatch("corr", fmt.Sprintf("%s-draw-count", keyp),
 							fmt.Sprintf("party %d round %d: a source serving at most %d bytes per Read served %d bytes in %d reads, the draw specification (%s %s) says %d bytes [%s] (a Read whose count is ignored leaves the rest of the value undrawn)", uint64(id), r, o.Chunk, total, len(obsN), cfg.fam, cfg.args(), wantTotal, rle(want)),
 							kase, what, false)
